@@ -51,6 +51,10 @@ type Contract struct {
 
 func (c *Contract) HasFrame() bool { return c != nil && (c.HasMod || c.Pure) }
 
+type AssumedObl struct {
+	Prefix, Reason, File string
+}
+
 type TypeSpec struct {
 	Name   string
 	Fields map[string]map[string]string // field -> attribute -> value
@@ -123,6 +127,14 @@ func (p *Program) parseContractFile(file, text string, model bool) error {
 			}
 			p.Contracts[c.Fn] = c
 			cur, curT, lastClause = c, nil, nil
+		case word == "assume_obligation":
+			// assume_obligation <obligation name prefix> :: reason
+			parts := strings.SplitN(rest, "::", 2)
+			if len(parts) != 2 {
+				return fmt.Errorf("%s: assume_obligation needs ':: reason'", loc)
+			}
+			p.AssumedObls = append(p.AssumedObls, AssumedObl{Prefix: strings.TrimSpace(parts[0]), Reason: strings.TrimSpace(parts[1]), File: loc})
+			cur, curT, lastClause = nil, nil, nil
 		case word == "type":
 			ts := &TypeSpec{Name: rest, Fields: map[string]map[string]string{}, Attrs: map[string]string{}}
 			p.TypeSpecs[rest] = ts
